@@ -350,15 +350,26 @@ def coq_show(prop, term):
 _PROP = None
 
 
+def _safe_impl(prop, c):
+    # an exception escaping run_impl (outside its own guarded calls) is recorded as an error outcome,
+    # so that a mutated implementation cannot crash the whole check instead of being reported
+    try:
+        return prop.run_impl(c)
+    except BaseException as e:  # noqa
+        if isinstance(e, (KeyboardInterrupt, SystemExit)):
+            raise
+        return ['err', 'Other', 'escaped run_impl: %s: %s' % (type(e).__name__, str(e)[:200])]
+
+
 def _impl_chunk(cases):
-    return [_PROP.run_impl(c) for c in cases]
+    return [_safe_impl(_PROP, c) for c in cases]
 
 
 def run_impl_all(prop, cases, jobs=12, chunk=100):
     global _PROP
     _PROP = prop
     if len(cases) < 2 * chunk or getattr(prop, 'SERIAL', False):
-        return [prop.run_impl(c) for c in cases]
+        return [_safe_impl(prop, c) for c in cases]
     chunks = [cases[i:i + chunk] for i in range(0, len(cases), chunk)]
     out = []
     with ProcessPoolExecutor(max_workers=jobs, mp_context=multiprocessing.get_context('fork')) as ex:
@@ -428,9 +439,27 @@ def evaluate(prop, cases, tag='run'):
     t0 = time.time()
     outs = run_impl_all(prop, cases)
     t1 = time.time()
-    terms = [prop.to_coq(c, o) for c, o in zip(cases, outs)]
+    # an implementation outcome that cannot even be written as a term of the case type (negative
+    # index, wrong shape, ...) is itself a failing case: it differs from the model and cannot
+    # satisfy the spec (code 3); it is not sent to Coq
+    terms, unprintable = [], {}
+    for i, (c, o) in enumerate(zip(cases, outs)):
+        try:
+            terms.append(prop.to_coq(c, o))
+        except Exception as e:  # noqa
+            unprintable[i] = '%s: %s' % (type(e).__name__, str(e)[:200])
+            terms.append(None)
     t2 = time.time()
-    codes, errors = coq_eval(prop, terms, shard=getattr(prop, 'SHARD', 300), tag=tag)
+    sent = [t for t in terms if t is not None]
+    sent_codes, errors = coq_eval(prop, sent, shard=getattr(prop, 'SHARD', 300), tag=tag)
+    codes, k = [], 0
+    for i, t in enumerate(terms):
+        if t is None:
+            codes.append(3)
+            terms[i] = '(* unprintable implementation outcome: %s *)' % unprintable[i]
+        else:
+            codes.append(sent_codes[k])
+            k += 1
     PHASES['impl_s'] = PHASES.get('impl_s', 0) + round(t1 - t0, 2)
     PHASES['print_s'] = PHASES.get('print_s', 0) + round(t2 - t1, 2)
     PHASES['coq_eval_s'] = PHASES.get('coq_eval_s', 0) + round(time.time() - t2, 2)
